@@ -58,7 +58,7 @@ Lemma nf_loop cx ecx u bt b l e : nf cx ecx u (RLoop bt b l e) =
   ((if u then [] else (l, WLoop (nf_bt cx ecx bt)) :: fst (nf_list cx ecx false b) ++ [(e, WEnd)]), u).
 Proof. rewrite <- nfl_inner_eq. reflexivity. Qed.
 Lemma nf_if_none cx ecx u bt th l e : nf cx ecx u (RIf bt th None l e) =
-  ((if u then [] else (l, WIf (nf_bt cx ecx bt)) :: fst (nf_list cx ecx false th) ++ [(e, WElse); (default_loc, WEnd)]), u).
+  ((if u then [] else (l, WIf (nf_bt cx ecx bt)) :: fst (nf_list cx ecx false th) ++ [(default_loc, WElse); (e, WEnd)]), u).
 Proof. rewrite <- nfl_inner_eq. reflexivity. Qed.
 Lemma nf_if_some cx ecx u bt th le el l e : nf cx ecx u (RIf bt th (Some (le, el)) l e) =
   ((if u then [] else (l, WIf (nf_bt cx ecx bt)) :: fst (nf_list cx ecx false th) ++ (le, WElse) :: fst (nf_list cx ecx false el) ++ [(e, WEnd)]), u).
@@ -392,7 +392,7 @@ Section Locs.
       + rewrite nf_if_none. cbn [fst flat]. fold (flat_list th). destruct u; [constructor|].
         constructor; [in_src|]. apply Forall_app. split.
         * apply (locin_weaken (flat_list th)); [sub_src|apply HFt].
-        * constructor; [in_src|]. constructor; [|constructor]. left. reflexivity.
+        * constructor; [left; reflexivity|]. constructor; [in_src|constructor].
   Qed.
 End Locs.
 
